@@ -625,12 +625,12 @@ type obs struct {
 
 func snapshot(root string) (map[string]obs, error) {
 	out := map[string]obs{}
-	err := filepath.Walk(root, func(p string, fi os.FileInfo, err error) error {
+	var rec func(p, rel string) error
+	rec = func(p, rel string) error {
+		fi, err := os.Lstat(p)
 		if err != nil {
 			return err
 		}
-		rel, _ := filepath.Rel(root, p)
-		rel = filepath.ToSlash(rel)
 		switch {
 		case fi.Mode()&os.ModeSymlink != 0:
 			t, err := os.Readlink(p)
@@ -640,7 +640,32 @@ func snapshot(root string) (map[string]obs, error) {
 			out[rel] = obs{"l", 0, hx(t)}
 		case fi.IsDir():
 			out[rel] = obs{"d", unixMode(fi.Mode()), ""}
+			if os.Getuid() != 0 && fi.Mode().Perm()&0o500 != 0o500 {
+				// the owner looks into a directory it may not read or search: the mode is recorded,
+				// opened up, and put back afterwards (the directory may be looked at again)
+				if err := os.Chmod(p, fi.Mode().Perm()|0o700); err != nil {
+					return err
+				}
+				defer os.Chmod(p, fi.Mode().Perm()|special(unixMode(fi.Mode())))
+			}
+			ents, err := os.ReadDir(p)
+			if err != nil {
+				return err
+			}
+			for _, e := range ents {
+				sub := e.Name()
+				if rel != "." {
+					sub = rel + "/" + e.Name()
+				}
+				if err := rec(filepath.Join(p, e.Name()), sub); err != nil {
+					return err
+				}
+			}
 		case fi.Mode().IsRegular():
+			if os.Getuid() != 0 && fi.Mode().Perm()&0o400 == 0 {
+				os.Chmod(p, fi.Mode().Perm()|0o400)
+				defer os.Chmod(p, fi.Mode().Perm()|special(unixMode(fi.Mode())))
+			}
 			data, err := os.ReadFile(p)
 			if err != nil {
 				return err
@@ -651,7 +676,8 @@ func snapshot(root string) (map[string]obs, error) {
 			out[rel] = obs{"?", unixMode(fi.Mode()), ""}
 		}
 		return nil
-	})
+	}
+	err := rec(root, ".")
 	return out, err
 }
 
@@ -2070,6 +2096,45 @@ func enumPerms(step int) {
 	run.Extra["entry_order_permutations"] = n
 }
 
+// enumPermsUnsearchable (unprivileged run): archives whose directories have recorded modes
+// without search, read or write permission for the owner, in every order of their entries.  The
+// owner can only restore them because restoreDirModes handles the deepest directory first; the
+// model (extract_po false) checks search permission on every chmod.
+func enumPermsUnsearchable() {
+	f := func(n string, m uint32) *Node {
+		return &Node{Kind: "f", Name: hx(n), Mode: m, Mtime: baseTime, Mtime2: baseTime, Seed: 5, Len: 3}
+	}
+	d := func(n string, m uint32, ch ...*Node) *Node {
+		return &Node{Kind: "d", Name: hx(n), Mode: m, Mtime: baseTime, Mtime2: baseTime, Children: ch}
+	}
+	shapes := []*Node{
+		d("", 0o755, d("p", 0o600, d("c", 0o755))),
+		d("", 0o700, d("p", 0o200, f("f", 0o444))),
+		d("", 0o755, d("p", 0o400, d("c", 0o500, f("f", 0o400)))),
+		d("", 0o300, d("p", 0o000, d("c", 0o000))),
+		d("", 0o600, d("a", 0o100), d("b", 0o644)),
+		d("", 0o755, d("p", 0o311, d("c", 0o622)), f("g", 0o200)),
+	}
+	n := 0
+	for _, root := range shapes {
+		var es []fent
+		walkEntries(root, "t", &es)
+		perms := 1
+		for k := 2; k <= len(es); k++ {
+			perms *= k
+		}
+		for k := 0; k < perms; k++ {
+			for _, pres := range []bool{false, true} {
+				runScenario(&Scenario{Op: "S", Umask: 0o022, Preserve: pres, Via: "memory", ForeignPerm: k + 1, NonRoot: true,
+					Items: []Item{{Name: hx("t"), Tree: cloneNode(root)}}})
+				n++
+			}
+		}
+	}
+	run.Count("nonroot-unsearchable-archives")
+	run.Extra["unsearchable_permutations"] = n
+}
+
 func main() {
 	run = common.Start("C12")
 	defer run.Finish()
@@ -2124,6 +2189,7 @@ func main() {
 		return
 	}
 	if *nonRootFlag {
+		enumPermsUnsearchable()
 		n := run.Scale(100, 2000)
 		for i := 0; i < n; i++ {
 			runScenario(genScenario(run.Rand.Fork(), 1000+i))
@@ -2150,7 +2216,7 @@ func main() {
 		"tree-links=outside", "tree-with-setuid/setgid/sticky", "foreign=OK", "foreign=ERR reject", "unpack-good=OK",
 		"unpack-wrong-checksum=ERR", "unpack-wrong-digest=ERR", "direct-push-compared", "skipunpack-blob", "forceCAS-deduped",
 		"dotdot-name: f", "dotdot-name: d", "dotdot-name: l", "dotdot-name: hard link", "dotdot-target",
-		"filesize>=1MiB", "name>100", "link-target>100", "name-nonascii", "nonroot: copy-in=OK", "nonroot: item=dir"} {
+		"filesize>=1MiB", "name>100", "link-target>100", "name-nonascii", "nonroot: copy-in=OK", "nonroot: item=dir", "nonroot: nonroot-unsearchable-archives"} {
 		if run.Dist[k] == 0 {
 			missing = append(missing, k)
 		}
